@@ -267,7 +267,7 @@ def harnesses():
                           tier="quick" if cname in ("digit", "quote", "slash-star", "dot-comma-semicolon", "ascii-space", "non-ascii") else "thorough",
                           bounds=["source = two characters, the first of class %s, the second one of %d pinned non-ASCII code points" % (
                               cname, len(NON_ASCII))]))
-        hs.append(Harness(id="C04.front.3.%s" % cname, fn=make_front(3, ci), group="front", functions=FNS, per_path=60, budget=6000,
+        hs.append(Harness(id="C04.front.3.%s" % cname, fn=make_front(3, ci), group="front", functions=FNS, per_path=60, budget=1500,
                           tier="thorough", require=("judged",), must_exhaust=False,
                           bounds=["source = three characters, the first of class %s, the others any ASCII character (bug hunting)" % cname]))
     for i, prog in enumerate(SPLICE_PROGRAMS):
@@ -277,7 +277,7 @@ def harnesses():
         hs.append(Harness(id="C04.splice.1w.p%02d" % i, fn=make_splice(prog, 1, True), group="splice", functions=FNS, per_path=60, budget=600,
                           require=("judged",),
                           bounds=["each of %d pinned non-ASCII code points spliced into every position of %r" % (len(NON_ASCII), prog)]))
-        hs.append(Harness(id="C04.splice.2.p%02d" % i, fn=make_splice(prog, 2), group="splice", functions=FNS, per_path=60, budget=6000,
+        hs.append(Harness(id="C04.splice.2.p%02d" % i, fn=make_splice(prog, 2), group="splice", functions=FNS, per_path=60, budget=1200,
                           tier="thorough", require=("judged",), must_exhaust=False,
                           bounds=["two symbolic ASCII characters spliced into every position of %r (bug hunting)" % prog]))
     from ..skel import corpus as CORPUS
